@@ -77,14 +77,19 @@ Section Reactor.
                 end
     end.
 
-  (* take the next call out of the queue and move the clock to it *)
-  Definition pop_next (r : reactor) : option (dcall * reactor) :=
-    match choose (oracle r) (candidates (queue r)) with
+  (* take one of the given calls out of the queue and move the clock to it *)
+  Definition pop_from (cands : list dcall) (r : reactor) : option (dcall * reactor) :=
+    match choose (oracle r) cands with
     | None => None
     | Some (c, orc') =>
         Some (c, mkReactor (Nat.max (now r) (dc_time c)) (nextseq r) (remove_seq (dc_seq c) (queue r))
                            (hooks r) (readers r) (running r) (really_stopped r) orc')
     end.
+  (* the next call *)
+  Definition pop_next (r : reactor) : option (dcall * reactor) := pop_from (candidates (queue r)) r.
+  (* a call due exactly at instant t *)
+  Definition pop_at (t : time) (r : reactor) : option (dcall * reactor) :=
+    pop_from (filter (fun c => Nat.eqb (dc_time c) t) (queue r)) r.
 
   (* ---- the event loop over a world that contains the reactor ---- *)
   Inductive loop_end := LDone | LHung | LFuel.
@@ -95,8 +100,22 @@ Section Reactor.
     Variable set : reactor -> W -> W.
     Variable exec : dcall -> W -> W.      (* run one delayed call (it is already out of the queue) *)
     Variable exec_hook : A -> W -> W.
+    (* batch = false: ONE call per iteration, `running` examined after each (crash() takes effect at once);
+       batch = true: like the real reactor's runUntilCurrent, every call due at the same instant runs in
+       the same iteration, whatever crash() did in between (cancelled ones are gone from the queue) *)
+    Variable batch : bool.
 
-    (* reactor.run(), main loop: ONE call at a time, `running` examined after each *)
+    (* the other calls due at instant t, one after the other (at most k of them) *)
+    Fixpoint drain (k : nat) (t : time) (w : W) : W :=
+      match k with
+      | 0 => w
+      | S k' => match pop_at t (get w) with
+                | None => w
+                | Some (c, r') => drain k' t (exec c (set r' w))
+                end
+      end.
+
+    (* reactor.run(), main loop *)
     Fixpoint loop (fuel : nat) (w : W) : loop_end * W :=
       if negb (running (get w)) then (LDone, w) else
       match fuel with
@@ -104,7 +123,9 @@ Section Reactor.
       | S f =>
           match pop_next (get w) with
           | None => (LHung, set (set_running false (get w)) w)   (* nothing left to do: the real reactor blocks for ever *)
-          | Some (c, r') => loop f (exec c (set r' w))
+          | Some (c, r') =>
+              let w1 := exec c (set r' w) in
+              loop f (if batch then drain (length (queue r')) (dc_time c) w1 else w1)
           end
       end.
 
